@@ -1,6 +1,141 @@
-/-! Driver entry for property C05 (stub: not implemented yet). -/
-namespace HeartwoodModel.Driver.C05
+import HeartwoodModel.Model.ChangeGraph
+import HeartwoodModel.Driver.Util
+/-! Driver entry for C05 (shared with C06). Case: `<changes> <tipsets> ord=<ranks>`.
 
-def run (_args : List String) : String := "unimplemented"
+`changes` = `;`-list, change `i` = `actor:ts:parents:kind`; `parents` = `+`-list of earlier indices,
+`x` = a commit that is not a change (unloadable), `-` = none; kinds: `r` root, `c` comment, `e` edit
+title (accepted iff by the issue author or the delegate, actor 0), `l` set the label set (accepted iff actor 0),
+`b…` = a change the object type rejects. `tipsets` = `/`-list of `,`-lists of indices or `x`.
+`ord` = for each change the rank of its oid among the oids of the case (computed by the real code; the
+model's keys). Output per tip set: `R<order>|T<timeline>;t<title>;L<labels>;H<history>;P<tips>`,
+joined by `/`. -/
+namespace HeartwoodModel.Driver.C05
+open HeartwoodModel.Dag HeartwoodModel.ChangeGraph HeartwoodModel.Driver.Util
+
+structure Ch where
+  idx : Nat
+  actor : Nat
+  ts : Nat
+  /-- `none` = unloadable parent -/
+  parents : List (Option Nat)
+  kind : String
+
+/-- key used for every unloadable commit -/
+def xKey : Nat := 1000000
+
+def parseRefs (s : String) (sep : Char) : Option (List (Option Nat)) :=
+  if s == "-" then some [] else
+  (splitOn s sep).mapM fun t => if t == "x" then some none else (nat? t).map some
+
+def parseCh (i : Nat) (s : String) : Option Ch :=
+  match splitOn s ':' with
+  | [a, t, ps, kind] => do
+    let a ← nat? a; let t ← nat? t; let ps ← parseRefs ps '+'
+    if ps.all (fun p => match p with | some j => decide (j < i) | none => true) then
+      some { idx := i, actor := a, ts := t, parents := ps, kind }
+    else none
+  | _ => none
+
+def parseChanges (s : String) : Option (List Ch) :=
+  let rec go (i : Nat) : List String → Option (List Ch)
+    | [] => some []
+    | t :: rest => do let c ← parseCh i t; let cs ← go (i + 1) rest; some (c :: cs)
+  go 0 (splitOn s ';')
+
+def parseOrd (s : String) (n : Nat) : Option (List Nat) :=
+  match splitOn s '=' with
+  | ["ord", r] => do
+    let r ← nats? r
+    if r.length == n then some r else none
+  | _ => none
+
+structure Case where
+  chs : List Ch
+  ord : List Nat
+
+def Case.key (c : Case) : Option Nat → Nat
+  | some i => match c.ord[i]? with | some k => k | none => xKey
+  | none => xKey
+
+def Case.store (c : Case) : Store Ch := fun k =>
+  match c.chs.find? (fun ch => c.key (some ch.idx) == k) with
+  | some ch => some (ch.parents.map c.key, ch)
+  | none => none
+
+def Case.idxOf (c : Case) (k : Nat) : Option Nat :=
+  (c.chs.find? (fun ch => c.key (some ch.idx) == k)).map (·.idx)
+
+def Case.ids (c : Case) : List Nat := c.chs.map fun ch => c.key (some ch.idx)
+
+def rootActor (c : Case) : Nat := match c.chs with | ch :: _ => ch.actor | [] => 0
+
+/-- `some true` accepted, `some false` rejected, `none` unknown kind -/
+def accept? (c : Case) (ch : Ch) : Option Bool :=
+  if ch.kind == "c" then some true
+  else if ch.kind == "e" then some (ch.actor == rootActor c || ch.actor == 0)
+  else if ch.kind == "l" then some (ch.actor == 0)
+  else if ch.kind.startsWith "b" then some false
+  else none
+
+def showIdx (xs : List Nat) : String := if xs.isEmpty then "-" else joinWith "+" (xs.map toString)
+
+def sortNat (xs : List Nat) : List Nat := isort (fun a b => decide (a ≤ b)) xs
+
+def showHist (c : Case) (g : Dag Ch) : String :=
+  let nodes := g.graph.map fun (_, n) =>
+    let ds := n.deps.map c.idxOf
+    let known := sortNat (ds.filterMap id)
+    let xs := (ds.filter (fun (d : Option Nat) => d.isNone)).map fun _ => "x"
+    (n.value.idx, s!"{n.value.idx}({joinWith "+" (known.map toString ++ xs)})")
+  let nodes := isort (fun a b => decide (a.1 ≤ b.1)) nodes
+  let tips := sortNat (g.tipsOf.filterMap c.idxOf)
+  s!"H{joinWith "," (nodes.map (·.2))};P{showIdx tips}"
+
+def showIssue (c : Case) (acc : List Nat) (g : Dag Ch) : String :=
+  let kindOf (i : Nat) : String := match c.chs.find? (·.idx == i) with | some ch => ch.kind | none => "?"
+  let timeline := acc.filter fun i => i == 0 || kindOf i == "c"
+  let title := match (acc.filter fun i => kindOf i == "e").getLast? with | some i => i | none => 0
+  let label := match (acc.filter fun i => kindOf i == "l").getLast? with | some i => toString i | none => "-"
+  s!"T{showIdx timeline};t{title};L{label};{showHist c g}"
+
+def showOut (f : List Nat → Dag Ch → String) : Option (Option (EvalOut (List Nat) Ch)) → String
+  | none => "fuel"
+  | some none => "none"
+  | some (some .missingRoot) => "missing-root"
+  | some (some .badRootSig) => "sig"
+  | some (some .initErr) => "init-err"
+  | some (some .fuel) => "fuel"
+  | some (some (.ok s g)) => f s g
+
+def rawApply : List Nat → K → Ch → List (K × Ch) → List Nat × Bool :=
+  applyOfOption fun s _ e _ => some (s ++ [e.idx])
+
+def issueApply (c : Case) : List Nat → K → Ch → List (K × Ch) → List Nat × Bool :=
+  applyOfOption fun s _ e _ => if accept? c e == some true then some (s ++ [e.idx]) else none
+
+def evalTips (c : Case) (apply : List Nat → K → Ch → List (K × Ch) → List Nat × Bool) (tips : List (Option Nat)) :
+    Option (Option (EvalOut (List Nat) Ch)) :=
+  let tks := tips.map c.key
+  match load c.store (loadFuel c.store c.ids tks) tks with
+  | none => none
+  | some none => some none
+  | some (some g) =>
+    some (some (evaluate (fun _ => true) (·.ts) (fun _ => some [0]) apply (evalFuel g (c.key (some 0))) g (c.key (some 0))))
+
+def parseCase (changes ord : String) : Option Case := do
+  let chs ← parseChanges changes
+  let ord ← parseOrd ord chs.length
+  if chs.all (fun ch => (accept? { chs, ord } ch).isSome || ch.idx == 0) then some { chs, ord } else none
+
+def run (args : List String) : String :=
+  match args with
+  | [changes, tipsets, ord] =>
+    match parseCase changes ord, (splitOn tipsets '/').mapM (fun t => parseRefs t ',') with
+    | some c, some tss =>
+      joinWith "/" (tss.map fun tips =>
+        showOut (fun s _ => "R" ++ showIdx s) (evalTips c rawApply tips) ++ "|" ++
+        showOut (showIssue c) (evalTips c (issueApply c) tips))
+    | _, _ => "bad-op"
+  | _ => "bad-op"
 
 end HeartwoodModel.Driver.C05
